@@ -905,8 +905,17 @@ func (fsys *BackupFS) tryRemoveBackup(resolvedName string) (err error) {
 		}
 	}()
 
-	if !fsys.alreadySeen(resolvedName) {
+	info, found := fsys.alreadySeenWithInfo(resolvedName)
+	if !found {
 		// nothing to remove
+		return nil
+	}
+
+	if info == nil {
+		// the path did not exist when it was first seen, so there is no backup
+		// of it: whatever the backup filesystem shows under that name belongs
+		// to another path (e.g. reached through a backed up symlink)
+		delete(fsys.baseInfos, resolvedName)
 		return nil
 	}
 
